@@ -606,8 +606,9 @@ func errorIface() *types.Interface {
 func (x *Exec) fmtString(f *Str, args Slice) Value {
 	// Only the cases used to build observable strings are modelled: a format with no verbs, or
 	// "%s"/"%v" of concrete strings. Everything else is an opaque placeholder.
+	// otherwise the (concrete) format string itself stands for the result.
 	fs, ok := f.Concrete()
-	if ok && !strings.Contains(fs, "%") {
+	if ok {
 		return x.strConst(fs)
 	}
 	return x.strConst("‹fmt›")
